@@ -119,6 +119,10 @@ def configs(tier):
         add(link="k", K=1, mode="ack", nak=nak, size=L + 1, ack_limit=2, nak_limit=2, kinds=("drop", "dup", "delay"), cancels=1)
     for closure in (False, True):
         add(link="k", K=1, mode="unack", closure=closure, size=L + 1, check_limit=2, kinds=("drop", "dup", "delay"), cancels=1)
+    # the directory of the destination path does not exist: no file can be created, so no success may be reported (also with the null checksum)
+    for cks, (mode, closure) in itertools.product(("null", "crc32"), (("ack", False), ("unack", True), ("unack", False))):
+        add(link="k", K=1 if cks == "crc32" else 0, mode=mode, closure=closure, size=L + 1, cks=cks, shape="nodir", ack_limit=2, nak_limit=2, check_limit=2,
+            kinds=("drop", "dup", "delay"))
     # request-level mode / closure differing from the MIB defaults of the remote entity configuration
     add(link="k", K=1, mode="unack", closure=False, req_closure=True, size=L + 1, check_limit=2, kinds=("drop", "dup", "delay", "flip", "reject"))
     add(link="k", K=1, mode="unack", closure=False, req_mode="ack", size=L + 1, ack_limit=2, nak_limit=2, kinds=("drop", "dup", "delay", "flip", "reject"))
